@@ -28,6 +28,7 @@ def dump (input : List UInt8) (i : Bolt11.SignedRaw) : String :=
 
 def b11 (s : List UInt8) : String :=
   match Bolt11.parseSigned s with
+  | .error .panicked => "panic"
   | .error e => "err " ++ e.name
   | .ok i => dump s i
 
@@ -56,6 +57,13 @@ def amtOp (cur : String) (m : String) : String :=
     match Bolt11.hrpOfAmount c (if m == "none" then none else some (nat! m)) with
     | none => "err InvalidAmount"
     | some h => "ok " ++ chars h.toChars
+
+/-- builder-side verdicts on one number (the translated comparisons of Generated/C18Bounds.lean) -/
+def verdict (ok : Bool) (err : String) : String := if ok then "ok" else "err " ++ err
+
+/-- an `x` / `c` payload as ser.rs writes it: announced length (`encoded_int_be_base32_size`), digits -/
+def intEnc (v : Nat) : String :=
+  s!"{Bolt11.encodedIntBeBase32Size v} {hex (Bolt11.encodeIntBe v)}"
 
 /-- merkle root: list formulation and the verbatim in-place loop must agree -/
 def merkle (b : List UInt8) : String :=
@@ -138,6 +146,11 @@ def c18b11 : Drv where
     | ["sem", s, v] => ((), C18.semOp (unhex s) (v == "1"))
     | ["hrp", s] => ((), C18.hrpOp (unhex s))
     | ["amt", cur, m] => ((), C18.amtOp cur m)
+    | ["ts", n] => ((), C18.verdict (Bolt11.positiveTimestamp (nat! n)).isSome "TimestampOutOfBounds")
+    | ["dlen", n] => ((), C18.verdict (Bolt11.descriptionLenOk (nat! n)) "DescriptionTooLong")
+    | ["mlen", n] => ((), C18.verdict (Bolt11.paymentMetadataLenOk (nat! n)) "PaymentMetadataTooLong")
+    | ["hops", n] => ((), C18.verdict (C18Bounds.privateRouteHopsOk (nat! n)) "RouteTooLong")
+    | ["intenc", v] => ((), C18.intEnc (nat! v))
     | ["chk", h, d] => ((), hex (createChecksum (unhex h) (unhex d)))
     | ["to5", b] => ((), hex (bytesToFes (unhex b)))
     | ["to8", f] => ((), hex (fesToBytes (unhex f)))
